@@ -321,6 +321,7 @@ def r14(ctx):
     chained = [c for c in core.calls(r'Iterator::chain$|::chain$') if any(op_local(a) in fl for a in c.args)]
     # the merge: a comparison of file_len and file_hash of two groups, in the core or in a closure of it
     cmp_ok = False
+    by_map = False
     for x in [core] + [lib.body(cp) for cp in lib.closures_of(core.path, recursive=False)]:
         names = set()
         for c in x.calls(r'PartialEq.*>::(eq|ne)$|PartialEq::(eq|ne)$'):
@@ -333,6 +334,20 @@ def r14(ctx):
                         names |= set(backslice(x, [o]).field_names())
         if {'file_len', 'file_hash'} <= names:
             cmp_ok = True
+        # ... or a look-up in a map keyed by (file_len, file_hash)
+        for c in x.calls(r'HashMap(::)?<.*>::(get|get_mut|entry|contains_key)$|BTreeMap(::)?<.*>::(get|get_mut|entry|contains_key)$'):
+            kf = set()
+            for a in c.args[1:]:
+                kf |= set(backslice(x, [a]).field_names())
+            if {'file_len', 'file_hash'} <= kf:
+                cmp_ok = True
+                by_map = True
+    # merging E examined groups by a linear search over the groups of the stage costs E^2/2 comparisons: every file of a hard-linked snapshot tree is
+    # such a group when a snapshot directory is rotated away during the run (--unique, --rf-under, -H)
+    if cmp_ok and not chained:
+        ctx.check(by_map, rule, core.path + '|examined-groups-rejoin-by-key', rec[0].where(), 'the group of the same (file_len, file_hash) is found through a map',
+                  'every examined group is merged with a linear search over all groups of the stage, and every group that finds no partner (practically always) is appended, so the searched vector '
+                  'grows with each of them: 64000 hard-linked files whose snapshot directory is removed during `group --unique` take 28 s instead of 4 s (x15.6 for x4 files), a million about 15 minutes')
     ctx.check(cmp_ok and not chained, rule, core.path + '|examined-groups-rejoin', (chained[0].where() if chained else rec[0].where()),
               'the groups returned by the late examination are merged into the hashed groups of the same (file_len, file_hash)',
               'the groups that the late examination of a passed (single-inode) group returns are appended to the result as groups of their own: a path that was replaced during the run by a copy of a '
